@@ -57,7 +57,7 @@ func (u *Unit) evalPure(st *State, fn *ssa.Function, args []Val, bind []Val) Val
 					u.limit("loop in pure function %s", FuncName(fn))
 				}
 			}
-			c = Or(ins...)
+			c = u.nameShort(Or(ins...), "bc")
 			bcond[b] = c
 		}
 		// phis
@@ -96,7 +96,7 @@ func (u *Unit) evalPure(st *State, fn *ssa.Function, args []Val, bind []Val) Val
 				}
 				fr.regs[in] = res
 			case *ssa.If:
-				cv := u.get(st, fr, in.Cond).(*Term)
+				cv := u.nameShort(u.get(st, fr, in.Cond).(*Term), "cv")
 				econd[[2]int{b.Index, b.Succs[0].Index}] = orNil(econd[[2]int{b.Index, b.Succs[0].Index}], And(c, cv))
 				econd[[2]int{b.Index, b.Succs[1].Index}] = orNil(econd[[2]int{b.Index, b.Succs[1].Index}], And(c, Not(cv)))
 			case *ssa.Jump:
@@ -182,6 +182,22 @@ func (u *Unit) mergeVal(c *Term, a, b Val) Val {
 			return a
 		}
 		r := SliceV{Blk: Ite(c, x.Blk, y.Blk), Off: Ite(c, x.Off, y.Off), Len: Ite(c, x.Len, y.Len), Cap: Ite(c, x.Cap, y.Cap), Elem: x.Elem, List: x.List, LOff: x.LOff}
+		if !r.Blk.IsInt && r.Blk.S != x.Blk.S && r.Blk.S != y.Blk.S {
+			var other *Term
+			if x.Blk.IsInt && x.Blk.I.Sign() == 0 {
+				other = y.Blk
+			} else if y.Blk.IsInt && y.Blk.I.Sign() == 0 {
+				other = x.Blk
+			}
+			if other != nil {
+				nb := *r.Blk
+				nb.BlkOf = other
+				if other.BlkOf != nil {
+					nb.BlkOf = other.BlkOf
+				}
+				r.Blk = &nb
+			}
+		}
 		if x.List != y.List && x.List != nil && y.List != nil {
 			u.limit("merge of different non-byte slices in a pure function")
 		}
